@@ -500,11 +500,13 @@ impl Bitswap {
     pub async fn run(mut self) {
         tracing::debug!(target: LOG_TARGET, "starting bitswap event loop");
         #[cfg(litep2p_verif)]
-        crate::verif::note_config(
-            self.service.local_peer_id(),
-            "bitswap",
-            format!("cap={}/{}", self.event_tx.max_capacity(), self.cmd_rx.max_capacity()),
-        );
+        if crate::verif::config_notes_enabled() {
+            crate::verif::note_config(
+                self.service.local_peer_id(),
+                "bitswap",
+                format!("cap={}/{}", self.event_tx.max_capacity(), self.cmd_rx.max_capacity()),
+            );
+        }
 
         loop {
             #[cfg(litep2p_verif)]
